@@ -480,7 +480,10 @@ pub fn c08() -> Outcome {
 }
 
 pub fn run(prop: &str) -> Option<Outcome> {
-    let a = run_a(prop);
+    // first the audit of the callee contracts the property's Verus file only assumes (rx/src/audit.rs)
+    let au = crate::audit::audit(prop);
+    if let Some(o) = &au { if o.fail.is_some() { return au; } }
+    let a = run_a(prop).map(|o| match &au { Some(x) => Outcome { cases: o.cases + x.cases, distinct: o.distinct + x.distinct, fail: o.fail }, None => o });
     match a {
         Some(o) if o.fail.is_none() => match crate::bounded4::run(prop) { Some(b) => Some(Outcome { cases: o.cases + b.cases, distinct: o.distinct + b.distinct, fail: b.fail }), None => Some(o) },
         other => other,
